@@ -98,7 +98,7 @@ def consts(ctx):
     return ctx.consts
 
 
-def replay_native(ctx, kind, args, both_profiles=True):
+def replay_native(ctx, kind, args, both_profiles=True, abort_is_violation=None):
     """Evaluate the property as written on concrete inputs against the real build.
     The native command prints one JSON object {"violates": bool, "detail": str}.
     A process abort (ub_checks precondition, panic) is reported by rc != 0."""
@@ -125,6 +125,16 @@ def replay_native(ctx, kind, args, both_profiles=True):
         except Exception:
             j = {}
         crashed = rc != 0
+        if abort_is_violation is None:
+            # a crash of the replayed conversion is itself the violation for the no-panic / no-UB kinds; for oracle
+            # comparisons it is a defect of the replay recipe and must not be reported as a reproduction
+            abort_counts = kind in ("conv", "geom", "layout")
+        else:
+            abort_counts = abort_is_violation
+        if crashed and not abort_counts:
+            out[prof] = {"rc": rc, "result": j, "stderr_tail": se[-600:]}
+            details.append("%s: replay tool aborted rc=%s (not counted) %s" % (prof, rc, se.strip().splitlines()[-1][:160] if se.strip() else ""))
+            continue
         v = bool(j.get("violates")) or crashed
         out[prof] = {"rc": rc, "result": j, "stderr_tail": se[-600:] if crashed else ""}
         if v:
